@@ -103,8 +103,11 @@ func peach(fm *Frame, opts peachOpt, f Callable, inputs Inputs) error {
 			return
 		}
 		if workerSema != nil {
+			verifTrace(fm.Evaler, fm, "peach.acquire-enter")
 			workerSema.Acquire(ctx, 1)
+			verifTrace(fm.Evaler, fm, "peach.acquire-return")
 		}
+		verifTrace(fm.Evaler, fm, "peach.spawn")
 		wg.Add(1)
 		go func() {
 			newFm := fm.Fork()
@@ -126,6 +129,7 @@ func peach(fm *Frame, opts peachOpt, f Callable, inputs Inputs) error {
 			}
 			wg.Done()
 			if workerSema != nil {
+				verifTrace(fm.Evaler, fm, "peach.release")
 				workerSema.Release(1)
 			}
 		}()
